@@ -1,6 +1,7 @@
 """C09 - tokens and events are grammatical and their positions are true (pairing / ordering / agreement clauses)."""
 import sys
 
+from sa import rules_r6b as R6B
 from sa import crosslist as XL
 from sa import report, rules_marks as RM, rules_read as RD, rules_reader as RR, rules_sibling as RSB
 from sa import rules_extra as RX
@@ -38,6 +39,7 @@ def run(ctx, repo):
     ctx.call(RX.r_column_per_char, repo)
     XL.scan_reference(ctx, repo)
     XL.reader_positions(ctx, repo)
+    ctx.call(R6B.r_error_mark_order, repo)
 
 
 if __name__ == '__main__':
